@@ -380,6 +380,13 @@ def cases(rng, ctx):
              ('SUBSTITUTE', [None, None, None, E])]
     # the literal route: every seventh formula-level case once more with its texts written into the formula as literals
     lits = [dict(c, lit=True) for i, c in enumerate(out) if c['kind'] in ('slice', 'lenconcat', 'case', 'join', 'subst') and i % 7 == 0]
+    # the cell route and the nested route: every eleventh / thirteenth formula-level case once more
+    lits += [dict(c, via='cell') for i, c in enumerate(out) if c['kind'] in ('slice', 'lenconcat', 'case', 'join', 'subst') and i % 11 == 0]
+    lits += [dict(c, via='nest') for i, c in enumerate(out) if c['kind'] in ('slice', 'lenconcat', 'case', 'subst') and i % 13 == 0]
+    for s_ in ['', 'abc', ' a ']:
+        lits += [{'kind': 'slice', 's': s_, 'n': n, 'st': 1, 'via': via} for n in (0, 1, 3) for via in ('cell', 'nest')]
+        lits += [{'kind': 'subst', 's': 'a-b-c', 'old': '-', 'new': s_, 'k': None, 'via': via} for via in ('cell', 'nest')]
+        lits += [{'kind': 'lenconcat', 'a': s_, 'b': 'xy', 'via': via} for via in ('cell', 'nest')]
     for s_ in LOOKALIKES:
         lits.append({'kind': 'case', 's': s_, 'lit': True})
         lits.append({'kind': 'case', 's': s_})
@@ -418,6 +425,11 @@ ITEM_NAMES = ['xa', 'xb', 'xc', 'xd', 'xe', 'xf', 'xg', 'xh']
 CASEFNS = ['UPPER', 'LOWER', 'PROPER', 'TRIM', 'CLEAN']
 
 
+CELL_NAMES = ['A1', 'B1', 'C1', 'D1', 'E1', 'F1', 'G1', 'H1', 'I1', 'J1', 'K1', 'L1']
+_cellvals = {}
+_nestvals = {}
+
+
 def quoted(v):
     """the text as a literal of the formula language (delimited by a quote character it does not contain), or None"""
     if not isinstance(v, str) or '\\' in v:
@@ -433,6 +445,12 @@ def setup(c):
     """-> (variables, formulas) of a formula-level case.  Route lit: every text that can be written as a literal is written
     into the formulas instead of being handed over in a variable"""
     vs, fs = setup_vars(c)
+    if c.get('via') == 'cell':
+        # route cell: every variable is the value of a cell instead (answered by the host's listener: an empty text is a text)
+        cellof = dict((name, CELL_NAMES[i]) for i, name in enumerate(sorted(vs)))
+        pat = re.compile(r'(?<![A-Za-z0-9_.])(%s)(?![A-Za-z0-9_.(])' % '|'.join(re.escape(n) for n in sorted(cellof, key=len, reverse=True)))
+        fs = [pat.sub(lambda m: cellof[m.group(1)], f) for f in fs]
+        return vs, fs
     if c.get('lit'):
         lit = dict((name, quoted(v)) for name, v in vs.items() if quoted(v) is not None)
         if lit:
@@ -483,7 +501,16 @@ def parser():
     if _p[0] is None:
         common.load_repo()
         import hotxlfp
-        _p[0] = hotxlfp.Parser()
+        p = hotxlfp.Parser()
+        p.on('callCellValue', lambda cell, setter: setter(_cellvals.get(cell.label)))
+
+        def on_var(name, setter):
+            # route nest: a defined name whose value the host obtains by evaluating a formula ON THE SAME PARSER, in the middle of
+            # the evaluation that asked for it
+            if name in _nestvals:
+                setter(p.parse(_nestvals[name])['result'])
+        p.on('callVariable', on_var)
+        _p[0] = p
     return _p[0]
 
 
@@ -494,7 +521,7 @@ def request(c):
     if k == 'fn':
         common.load_repo()
         return 'fn ' + enc_str(c['name']) + ''.join(' ' + fx.to_wire(pyval(a)) for a in c['args'])
-    vs, fs = setup(c)
+    vs, fs = setup(dict(c, via=None))          # (the model sees the values as variables whatever the route)
     return 'c04.batch ' + ' '.join(enc_str(f) for f in fs) + ' ' + fx.env_wire(variables={n: pyval(v) for n, v in vs.items()})
 
 
@@ -526,8 +553,16 @@ def impl(c):
     vs, fs = setup(c)
     names = setup_vars(c)[1]          # the records are filed under the formula as written with variables (route lit too)
     p = parser()
-    for n, v in vs.items():
-        p.set_variable(n, pyval(v))
+    _cellvals.clear()
+    _nestvals.clear()
+    for i, n in enumerate(sorted(vs)):
+        v = pyval(vs[n])
+        _cellvals[CELL_NAMES[i]] = v
+        if c.get('via') == 'nest' and quoted(v) is not None:
+            p.variables.pop(n, None)
+            _nestvals[n] = quoted(v)
+        else:
+            p.set_variable(n, v)
     return [(nm, p.parse(f)) for nm, f in zip(names, fs)]
 
 
@@ -608,6 +643,9 @@ def only_case(fn, s, r):
 
 def oracle(c, impl_ans):
     msg = oracle0(c, impl_ans)
+    if msg and c.get('via'):
+        msg += ' [route %s: %s]' % (c['via'], 'the variables are the values of cells answered by the listener: ' + ' | '.join(setup(c)[1])[:300]
+                                    if c['via'] == 'cell' else 'the text variables are defined names the host resolves by evaluating a literal on the same parser')
     if msg and c.get('lit'):
         msg += ' [the texts written into the formulas as literals: %s]' % ' | '.join(setup(c)[1])[:600]
     return msg
